@@ -142,12 +142,23 @@ async fn driver(
     let mut stop_polling_until: Option<Instant> = None;
     let (val_tx, mut val_rx) = tokio::sync::mpsc::unbounded_channel::<(usize, bool)>();
     let push = |log: &Log, l: L| log.lock().unwrap().push((tick(), Instant::now(), l));
+    // validation prompts left unanswered on purpose (policy Never): litep2p has no timeout for
+    // them, the peer stays in `Validating` until the user answers
+    let mut unanswered: Vec<usize> = Vec::new();
     loop {
         let polling = stop_polling_until.map(|t| Instant::now() >= t).unwrap_or(true);
         tokio::select! {
             c = rx.recv() => match c {
                 Some(DCmd::Stop) | None => break,
-                Some(DCmd::SetPolicy(p)) => policy = p,
+                Some(DCmd::SetPolicy(p)) => {
+                    policy = p;
+                    if p == Policy::Accept {
+                        // quiesce: the user finally answers everything it had left open
+                        for j in unanswered.drain(..) {
+                            let _ = val_tx.send((j, false));
+                        }
+                    }
+                }
                 Some(DCmd::Do(kind)) => match kind {
                     Kind::Open(j) => {
                         push(&log, L::OpenCall { peer: j });
@@ -173,6 +184,7 @@ async fn driver(
                 },
             },
             v = val_rx.recv() => if let Some((j, accept)) = v {
+                unanswered.retain(|x| *x != j);
                 push(&log, L::ValidationAnswer { peer: j, accept });
                 handle.send_validation_result(peers[j], if accept { ValidationResult::Accept } else { ValidationResult::Reject });
             },
@@ -186,7 +198,10 @@ async fn driver(
                         Policy::Accept => { let _ = val_tx.send((j, true)); }
                         Policy::Reject => { let _ = val_tx.send((j, false)); }
                         Policy::Delayed(ms) => { let tx = val_tx.clone(); tokio::spawn(async move { tokio::time::sleep(Duration::from_millis(ms)).await; let _ = tx.send((j, true)); }); }
-                        Policy::Never | Policy::Mixed => {}
+                        Policy::Never | Policy::Mixed => {
+                            unanswered.retain(|x| *x != j);
+                            unanswered.push(j);
+                        }
                     }
                 }
                 Some(NotificationEvent::NotificationStreamOpened { peer, direction, .. }) => {
@@ -327,8 +342,9 @@ fn gen(rng: &mut Rng) -> Scen {
 
 fn last_state(log: &[(u64, Instant, L)], peer: usize) -> (bool, bool) {
     // (stream open, validation pending or own open request unanswered) as seen by the user.
-    // Requests and validation prompts older than 17 s (10 s negotiation + 5 s validation + 2 s
-    // substream open timeout) can no longer be in progress inside litep2p.
+    // Own open requests older than 17 s (10 s negotiation + 5 s + 2 s substream open timeout) can
+    // no longer be in progress inside litep2p. A validation prompt has no timeout in litep2p: it
+    // stays "in progress" until the user answers (the quiesce phase answers all of them).
     let now = Instant::now();
     let fresh = |t: &Instant| now.duration_since(*t) < Duration::from_secs(17);
     let mut open = false;
@@ -356,7 +372,7 @@ fn last_state(log: &[(u64, Instant, L)], peer: usize) -> (bool, bool) {
             _ => {}
         }
     }
-    (open, pending.as_ref().map(fresh).unwrap_or(false) || outstanding.iter().any(fresh))
+    (open, pending.is_some() || outstanding.iter().any(fresh))
 }
 
 async fn run_scenario(s: Scen, exec: ChaosExecutor, lag: LagMonitor) -> RunOut {
@@ -896,8 +912,9 @@ pub fn run(ctx: &Ctx, prop: &'static str) -> Report {
         let v: Value = serde_json::from_slice(&std::fs::read(path).expect("replay")).expect("json");
         let seed = v["replay"]["gen_seed"].as_u64().unwrap_or(1);
         let mut rng = Rng::new(seed);
-        let s = gen(&mut rng);
-        vec![s.clone(), s.clone(), s]
+        let mut s = gen(&mut rng);
+        s.seed = seed; // as in the generating run: the generator seed doubles as the scenario seed
+        if ctx.has_arg("--single") { vec![s] } else { vec![s.clone(), s.clone(), s] }
     } else {
         let mut rng = ctx.rng("c11");
         let n = ctx.pick(64, 1600) / ctx.nshards;
